@@ -110,3 +110,57 @@ let () = Reg.register "c07.tables" (fun inp out ->
     let depth = (match lst out with [_; d] -> d | _ -> A "0") in
     (L [(if r = 0 then A "validated" else A ("rejected-clause-" ^ string_of_int r)); depth], !verdict)
   | _ -> failwith "c07.tables")
+
+(* c07.gen: generated Go parsers of `:: parser lalr(k)` grammars (runtime deep lookahead, resolveDeepLA) on token
+   sequences rendered with blanks / injected comments / invalid characters between the tokens. Oracle: the chart
+   recogniser on the token sequence; all renderings must give the same result; model: the loop model (deep rows
+   walking the token list) on the tables the generated parser embeds. *)
+let () = Reg.register "c07.gen" (fun inp out ->
+  match lst inp with
+  | [cfg; _k; gtm; tables; tmap; items] ->
+    let tmap = Stdlib.Array.of_list (get_list get_z tmap) in
+    let cfg = P_c03.get_grammar cfg in
+    let gtm = P_c03.get_grammar gtm in
+    let (nt, _) = Stdlib.List.nth cfg.Cfg.g_inputs 0 in
+    let (enc, opt, rl, rs, finals, _) = P_c01.get_tables tables in
+    let m = (match opt with Some o -> Run.opt_machine o gtm.Cfg.g_terms rl rs | None -> Run.default_machine enc rl rs) in
+    let verdict = ref "ok" in
+    let bad v = if !verdict = "ok" then verdict := v in
+    let model = Stdlib.List.map2 (fun it o ->
+      match lst it with
+      | [toks; rends] ->
+        let w = get_list get_z toks in
+        let n = Stdlib.List.length w in
+        let wt = Stdlib.List.map (fun t -> tmap.(int_of_z t)) w in
+        let (oc, _) = Validator.parse (nat_of_int (40 * n + 400)) m finals O wt in
+        let mo = (match oc with
+          | Accept -> L [A "accept"]
+          | SyntaxError (_, _, k) -> L [A "syntax"; put_z k]
+          | Crash _ -> A "panic"
+          | OutOfFuel -> A "timeout") in
+        let sentence = Derive.derives_dec cfg nt w in
+        let plain = ref None in
+        Stdlib.List.iteri (fun j r ->
+          let acc = (match r with
+            | L [A "accept"] -> Some true
+            | L [A "syntax"; _] | L [A "syntax-at-offset"; _] -> Some false
+            | _ -> None) in
+          (match acc with
+           | None -> bad "bad:generated-lalr-k-parser-crashed-or-hung"
+           | Some a ->
+             if j = 0 then begin
+               plain := Some a;
+               if a && not sentence then bad "bad:generated-lalr-k-parser-accepts-a-non-sentence"
+               else if (not a) && sentence then bad "bad:generated-lalr-k-parser-rejects-a-sentence"
+             end else if a && not sentence then
+               bad (if !plain = Some a then "bad:generated-lalr-k-parser-accepts-a-non-sentence"
+                    else "bad:generated-lalr-k-parser-accepts-a-non-sentence-when-comments-or-blanks-are-skipped")
+             else if (not a) && sentence then
+               bad (if !plain = Some a then "bad:generated-lalr-k-parser-rejects-a-sentence"
+                    else "bad:generated-lalr-k-parser-rejects-a-sentence-when-comments-or-blanks-are-skipped"))) (lst o);
+        L (Stdlib.List.map (fun _ -> mo) (lst rends))
+      | _ -> failwith "c07.gen item") (lst items) (lst out) in
+    (L model, !verdict)
+  | _ -> failwith "c07.gen")
+
+let () = Reg.register "c07.nocompile" (fun _ _ -> (A "compiles", "ok"))
